@@ -336,6 +336,9 @@ def replay_plan(rng, clear_p=0.12, fin_p=0.25):
         if r < 0.34:
             # a non-rewindable region
             inner = [M("null")] + (point() if rng.random() < 0.5 else []) + ([M("checkpoint")] if rng.random() < 0.3 else [])
+            if rng.random() < clear_p:
+                # a non-resumable section INSIDE a non-rewindable region (both switches of `resumable` at once)
+                inner = [M("clear_checkpoint"), M("null")] + inner + [M("null")]
             return [M("rewindable", None, False)] + inner + ([M("rewindable", None, True)] if rng.random() < 0.85 else [])
         if r < 0.40:
             return [M("rewindable", None, rng.random() < 0.7)]
